@@ -66,6 +66,8 @@ type scenario struct {
 	mode   int // how a refusal looks
 	notes  []string
 	closeBlocked bool
+	blocks       bool // PushBlock subscription (else PushBlockHeader)
+	innerGap     bool
 }
 
 func (s *scenario) log(e event) {
@@ -137,6 +139,7 @@ func (m *memStore) List(prefix []byte) ([][]byte, error) {
 type seqStore struct {
 	mu     sync.Mutex
 	latest int64
+	bigMod int64 // every sequence with seq%bigMod < 5 is reported as a 400 KB block (0: none)
 }
 
 func hashOf(seq int64) []byte { return []byte(fmt.Sprintf("hash-%020d-padpadpadpad", seq))[:32] }
@@ -164,7 +167,11 @@ func (s *seqStore) LoadBlockBySequence(seq int64) (*types.BlockDetail, int, erro
 		return nil, 0, err
 	}
 	b := &types.BlockDetail{Block: &types.Block{Height: seq, BlockTime: 1600000000 + seq}}
-	return b, b.Size(), nil
+	size := b.Size()
+	if s.bigMod > 0 && seq%s.bigMod < 5 {
+		size = 400 * 1024 // a run of large blocks: the 1 MB payload cap cuts the batch
+	}
+	return b, size, nil
 }
 func (s *seqStore) LastHeader() *types.Header {
 	s.mu.Lock()
@@ -187,12 +194,30 @@ func (s *scenario) handler(w http.ResponseWriter, req *http.Request) {
 	var a, b int64 = -1, -1
 	if err == nil {
 		raw, _ := io.ReadAll(zr)
-		var hs types.HeaderSeqs
-		if types.Decode(raw, &hs) == nil && len(hs.Seqs) > 0 {
-			a, b = hs.Seqs[0].Num, hs.Seqs[len(hs.Seqs)-1].Num
-			for i, x := range hs.Seqs {
-				if x.Num != a+int64(i) {
-					s.notes = append(s.notes, fmt.Sprintf("payload not consecutive inside: %d at %d", x.Num, i))
+		var nums []int64
+		if s.blocks {
+			var bs types.BlockSeqs
+			if types.Decode(raw, &bs) == nil {
+				for _, x := range bs.Seqs {
+					nums = append(nums, x.Num)
+				}
+			}
+		} else {
+			var hs types.HeaderSeqs
+			if types.Decode(raw, &hs) == nil {
+				for _, x := range hs.Seqs {
+					nums = append(nums, x.Num)
+				}
+			}
+		}
+		if len(nums) > 0 {
+			a, b = nums[0], nums[len(nums)-1]
+			for i, x := range nums {
+				if x != a+int64(i) {
+					// the payload itself skips a sequence: report the range actually covered as broken
+					s.mu.Lock()
+					s.innerGap = true
+					s.mu.Unlock()
 				}
 			}
 		}
@@ -257,6 +282,10 @@ func runScenario(seed uint64, idx int) *scenario {
 	s.rec, s.last = blockchain.VerifPushKeys(s.name)
 	s.store = &memStore{m: map[string][]byte{}, sc: s}
 	s.seqs = &seqStore{latest: int64(5 + r.Intn(40))}
+	s.blocks = r.Bool()
+	if s.blocks && r.Chance(2, 3) {
+		s.seqs.bigMod = int64(7 + r.Intn(10))
+	}
 	srv := httptest.NewServer(http.HandlerFunc(s.handler))
 	defer srv.Close()
 	q := queue.New("verif-push")
@@ -266,6 +295,9 @@ func runScenario(seed uint64, idx int) *scenario {
 	failSleep := int32(1 + r.Intn(2))
 	push := blockchain.VerifNewPush(s.store, s.seqs, q.Client(), failSleep)
 	sub := &types.PushSubscribeReq{Name: s.name, URL: srv.URL, Encode: "proto", Type: 1} // PushBlockHeader
+	if s.blocks {
+		sub.Type = 0 // PushBlock
+	}
 	resume := int64(0)
 	if r.Bool() {
 		resume = 1 + int64(r.Intn(int(s.seqs.latest)))
@@ -332,6 +364,9 @@ func runScenario(seed uint64, idx int) *scenario {
 
 // the property evaluated directly on the log
 func predicate(s *scenario) {
+	if s.innerGap {
+		out.Pred("C32|getPushData|payload-skips-a-sequence", fmt.Sprintf("%s: a posted payload does not hold consecutive sequences; log=%s", s.name, s.dump()))
+	}
 	if s.closeBlocked {
 		out.Pred("C32|Push.Close|blocked", fmt.Sprintf("%s: Push.Close did not return within 20s; log=%s", s.name, s.dump()))
 	}
@@ -430,6 +465,12 @@ func main() {
 			}
 			predicate(s)
 			out.Stat("scenarios", 1)
+			if s.blocks {
+				out.Stat("scenarios_pushblock", 1)
+			}
+			if s.seqs.bigMod > 0 {
+				out.Stat("scenarios_with_size_cut", 1)
+			}
 			out.Stat("acknowledged_posts", int64(acks))
 			out.Stat("failed_posts", int64(fails))
 			for _, nt := range s.notes {
